@@ -29,6 +29,7 @@ type EntrySpec struct {
 	MaxPaths      int            `json:"max_paths"`
 	MaxSteps      int            `json:"max_steps"`
 	MaxSeconds    int            `json:"max_seconds"`
+	Solver        string         `json:"solver"`
 }
 
 type CheckSpec struct {
@@ -176,7 +177,7 @@ func CmdCheck(args []string) int {
 			problems = append(problems, err.Error())
 			continue
 		}
-		cfg := interp.Config{MapOrderAll: e.MapOrderAll, SymbolicNanos: e.SymbolicNanos, Bounds: bounds, KnownOpen: knownOpen, MaxSteps: e.MaxSteps}
+		cfg := interp.Config{MapOrderAll: e.MapOrderAll, SymbolicNanos: e.SymbolicNanos, Bounds: bounds, KnownOpen: knownOpen, MaxSteps: e.MaxSteps, SolverKind: e.Solver, Trace: *verbose}
 		if *tier == "thorough" {
 			cfg.TimeoutMs = 120000
 		}
